@@ -310,11 +310,12 @@ def explore(run, tier):
                               'msgs': [iu.dict_wire(m) for m, _ in pairs], 'exps': [iu.dict_wire(e) for _, e in pairs],
                               'with': b == 1, 'many': False, 'defaultcfg': True})
     # records whose ends / length prefixes land exactly on (or next to) a 1012-byte payload boundary, spanning
-    # one to three further blocks: message sizes are tuned with plain LLLVAR text elements
+    # zero to three further blocks: message sizes are tuned with plain LLLVAR text elements
     for codec in codecs3:
         for b in (0, 1):
             for npre in (0, 1, 3):
-                for k in (1, 2, 3):
+                for k in (0, 1, 2, 3):      # k = 0: the record ends in the block it starts in (the write that completes it
+                    #                        is shorter than a block), k > 0: it spans k further blocks
                     for d in ((-1, 0, 1) if tier == 'quick' else (-5, -4, -3, -2, -1, 0, 1, 2, 3, 4)):
                         pre = []
                         while len(pre) < npre:
